@@ -530,7 +530,7 @@ coap_session_mfree(coap_session_t *session) {
   HASH_ITER(hh, session->context->cache, cp, ctmp) {
     /* cp->session is NULL if not session based */
     if (cp->session == session) {
-      coap_delete_cache_entry(session->context, cp);
+      coap_delete_cache_entry_lkd(session->context, cp);
     }
   }
 #endif /* COAP_SERVER_SUPPORT */
